@@ -51,7 +51,7 @@ Section Proofs.
 
   Lemma step_WF p o : WF p -> WF (step p o).
   Proof.
-    destruct p as [st w]. intros [H1 H2]. cbn [fst snd] in *. destruct o as [d|]; cbn [Model.step].
+    destruct p as [st w]. intros [H1 H2]. cbn [fst snd] in *. destruct o as [d| |d]; cbn [Model.step].
     - unfold Model.fire. destruct (mem d (fired w)) eqn:Ef; [split; assumption|].
       destruct st as [r|d' k].
       + split; cbn; auto.
@@ -59,7 +59,9 @@ Section Proofs.
         * apply drive_WF. cbn. auto.
         * split; cbn; [auto|]. intros [H|H]; [congruence | contradiction].
     - unfold Model.cancel. destruct st as [r|d k]; [split; assumption|].
+      destruct (mem d (held w)); [split; assumption|].
       apply drive_WF. cbn. intros x [<-|Hx]; auto.
+    - unfold Model.hold. destruct (mem d (fired w)); split; assumption.
   Qed.
 
   (** ---- [c]: the Deferreds that are fired by their canceller in this execution ---- *)
@@ -109,10 +111,10 @@ Section Proofs.
       synchronous continuation is the same *)
   Lemma step_back p o : WF p -> agrees (snd (step p o)) -> agrees (snd p) /\ sync_of (step p o) = sync_of p.
   Proof.
-    destruct p as [st w]. intros [W1 W2]. cbn [fst snd] in *. destruct o as [d|]; cbn [Model.step].
+    destruct p as [st w]. intros [W1 W2]. cbn [fst snd] in *. destruct o as [d| |d]; cbn [Model.step].
     - (* a Deferred fires *)
       unfold Model.fire. destruct (mem d (fired w)) eqn:Ef; [auto|]. apply mem_false in Ef.
-      set (w1 := mkw (d :: fired w) (cancelled w) (consumed w) (seen w)).
+      set (w1 := mkw (d :: fired w) (cancelled w) (consumed w) (seen w) (held w)).
       assert (Hback : agrees w1 -> agrees w /\ ~ In d c).
       { intros (A1 & A2). cbn in *. split; [split; [exact A1|]|].
         - intros x Hx Hf. apply A2; [exact Hx | right; exact Hf].
@@ -131,8 +133,8 @@ Section Proofs.
           rewrite Hn1, Hn2. reflexivity.
         * cbn [snd]. intros Ha. destruct (Hback Ha) as [H _]. split; [exact H | reflexivity].
     - (* the returned Deferred is cancelled *)
-      unfold Model.cancel. destruct st as [r|d k]; [auto|].
-      set (w1 := mkw (d :: fired w) (d :: cancelled w) (consumed w) (Cancelled d :: seen w)).
+      unfold Model.cancel. destruct st as [r|d k]; [auto|]. destruct (mem d (held w)); [auto|].
+      set (w1 := mkw (d :: fired w) (d :: cancelled w) (consumed w) (Cancelled d :: seen w) (held w)).
       destruct (drive_world (k (current assign canc w1 d)) (consume d w1)) as (E1 & E2 & _).
       intros (A1 & A2). rewrite E1, E2 in *. cbn [fired cancelled consume w1] in *.
       assert (Ha1 : agrees w1) by (split; assumption).
@@ -146,6 +148,8 @@ Section Proofs.
         assert (H1 : mem d (d :: cancelled w) = true) by (apply mem_In; left; reflexivity).
         assert (H2 : mem d c = true) by (apply mem_In; exact Hc).
         rewrite H1, H2. reflexivity.
+    - (* a Deferred is fired while paused: nothing is delivered *)
+      unfold Model.hold. destruct (mem d (fired w)); auto.
   Qed.
 
   Lemma run_back ops : forall p, WF p -> agrees (snd (fold_left step ops p)) ->
@@ -156,13 +160,13 @@ Section Proofs.
     destruct (step_back p o HW Ha1) as [Ha0 Hs0]. split; [exact Ha0 | congruence].
   Qed.
 
-  Lemma run_sync pre g sched : agrees (snd (run assign canc pre g sched)) ->
-    sync_of (run assign canc pre g sched) = sync out g [] [].
+  Lemma run_sync pre hold0 g sched : agrees (snd (run assign canc pre hold0 g sched)) ->
+    sync_of (run assign canc pre hold0 g sched) = sync out g [] [].
   Proof.
     intros Ha. unfold run in *.
-    assert (HW : WF (start assign canc pre g)) by (apply drive_WF; intros d []).
+    assert (HW : WF (start assign canc pre hold0 g)) by (apply drive_WF; intros d []).
     destruct (run_back sched _ HW Ha) as [Ha0 Hs]. rewrite Hs. unfold start in *.
-    destruct (drive_world g (mkw pre [] [] [])) as (E1 & E2 & _).
+    destruct (drive_world g (mkw pre [] [] [] hold0)) as (E1 & E2 & _).
     rewrite drive_sync; [reflexivity|]. unfold agrees in *. rewrite E1, E2 in Ha0. exact Ha0.
   Qed.
 End Proofs.
@@ -175,17 +179,17 @@ Section Proofs2.
   Variable assign : nat -> outcome.
   Variable canc : nat -> cbeh.
 
-  Lemma run_WF pre g sched : WF (run assign canc pre g sched).
+  Lemma run_WF pre hold0 g sched : WF (run assign canc pre hold0 g sched).
   Proof.
-    unfold run. assert (H : WF (start assign canc pre g)) by (apply drive_WF; intros d []).
-    revert H. generalize (start assign canc pre g) as p. induction sched as [|o r IH]; intros p H; [exact H|].
+    unfold run. assert (H : WF (start assign canc pre hold0 g)) by (apply drive_WF; intros d []).
+    revert H. generalize (start assign canc pre hold0 g) as p. induction sched as [|o r IH]; intros p H; [exact H|].
     cbn [fold_left]. apply IH, step_WF, H.
   Qed.
 
   (** everything in the schedule that fires has fired *)
   Lemma step_fired p o : forall x, In x (fired (snd p)) \/ o = SFire x -> In x (fired (snd (step assign canc p o))).
   Proof.
-    destruct p as [st w]. intros x Hx. destruct o as [d|]; cbn [Model.step snd].
+    destruct p as [st w]. intros x Hx. destruct o as [d| |d]; cbn [Model.step snd].
     - unfold Model.fire. destruct (mem d (fired w)) eqn:E.
       + destruct Hx as [Hx|[= ->]]; [exact Hx | apply mem_In; exact E].
       + assert (H1 : In x (d :: fired w)) by (destruct Hx as [Hx|[= ->]]; [right; exact Hx | left; reflexivity]).
@@ -193,22 +197,24 @@ Section Proofs2.
         match goal with |- context [Model.drive assign canc ?g ?w0] => destruct (drive_world assign canc g w0) as (E1 & _) end.
         rewrite E1. exact H1.
     - destruct Hx as [Hx|Hx]; [|discriminate]. unfold Model.cancel. destruct st as [r|d k]; [exact Hx|].
+      destruct (mem d (held w)); [exact Hx|].
       match goal with |- context [Model.drive assign canc ?g ?w0] => destruct (drive_world assign canc g w0) as (E1 & _) end.
       rewrite E1. right. exact Hx.
+    - destruct Hx as [Hx|Hx]; [|discriminate]. unfold Model.hold. destruct (mem d (fired w)); exact Hx.
   Qed.
 
-  Lemma run_fired pre g sched : forall x, In x pre \/ In (SFire x) sched -> In x (fired (snd (run assign canc pre g sched))).
+  Lemma run_fired pre hold0 g sched : forall x, In x pre \/ In (SFire x) sched -> In x (fired (snd (run assign canc pre hold0 g sched))).
   Proof.
     unfold run.
-    assert (H : forall x, In x pre -> In x (fired (snd (start assign canc pre g)))).
-    { intros x Hx. unfold start. destruct (drive_world assign canc g (mkw pre [] [] [])) as (E1 & _). rewrite E1. exact Hx. }
-    revert H. generalize (start assign canc pre g) as p. revert pre.
+    assert (H : forall x, In x pre -> In x (fired (snd (start assign canc pre hold0 g)))).
+    { intros x Hx. unfold start. destruct (drive_world assign canc g (mkw pre [] [] [] hold0)) as (E1 & _). rewrite E1. exact Hx. }
+    revert H. generalize (start assign canc pre hold0 g) as p. revert pre.
     induction sched as [|o r IH]; intros pre p Hp x Hx.
     - destruct Hx as [Hx|[]]. apply Hp, Hx.
-    - cbn [fold_left]. apply (IH (match o with SFire d => d :: pre | SCancel => pre end)).
-      + intros y Hy. apply step_fired. destruct o as [d|]; [destruct Hy as [<-|Hy]; [right; reflexivity | left; apply Hp, Hy] | left; apply Hp, Hy].
+    - cbn [fold_left]. apply (IH (match o with SFire d => d :: pre | _ => pre end)).
+      + intros y Hy. apply step_fired. destruct o as [d| |d]; [destruct Hy as [<-|Hy]; [right; reflexivity | left; apply Hp, Hy] | left; apply Hp, Hy | left; apply Hp, Hy].
       + destruct Hx as [Hx|[Ho|Hx]].
-        * left. destruct o; [right|]; exact Hx.
+        * left. destruct o; [right| |]; exact Hx.
         * subst o. left. left. reflexivity.
         * right. exact Hx.
   Qed.
@@ -219,16 +225,16 @@ Section Proofs2.
     own (seen (snd (step assign canc (Finished r, w) o))) = own (seen w) /\
     cancelled (snd (step assign canc (Finished r, w) o)) = cancelled w /\
     consumed (snd (step assign canc (Finished r, w) o)) = consumed w.
-  Proof. destruct o as [d|]; cbn; [destruct (mem d (fired w))|]; repeat split; reflexivity. Qed.
+  Proof. destruct o as [d| |d]; cbn; [destruct (mem d (fired w))| |destruct (mem d (fired w))]; repeat split; reflexivity. Qed.
 
   (** cancelling while suspended on d cancels exactly d (and resumes the function with d's outcome) *)
-  Lemma cancel_exactly d k w :
+  Lemma cancel_exactly d k w : mem d (held w) = false ->
     cancelled (snd (cancel assign canc (Suspended d k, w))) = d :: cancelled w /\
     cancel assign canc (Suspended d k, w) =
       drive assign canc (k (if mem d (consumed w) then Val VNone else cancel_outcome (canc d)))
-            (mkw (d :: fired w) (d :: cancelled w) (d :: consumed w) (Cancelled d :: seen w)).
+            (mkw (d :: fired w) (d :: cancelled w) (d :: consumed w) (Cancelled d :: seen w) (held w)).
   Proof.
-    unfold Model.cancel.
+    intros Hh. unfold Model.cancel. rewrite Hh.
     match goal with |- context [Model.drive assign canc ?g ?w0] => destruct (drive_world assign canc g w0) as (_ & E2 & _) end.
     split; [rewrite E2; reflexivity|]. unfold current, eff, consume. cbn [consumed cancelled fired seen].
     assert (H : mem d (d :: cancelled w) = true) by (apply mem_In; left; reflexivity). rewrite H. reflexivity.
@@ -236,20 +242,21 @@ Section Proofs2.
 End Proofs2.
 
 (** a Deferred is cancelled at most once *)
-Lemma run_cancel_nodup assign canc pre g sched : NoDup (cancelled (snd (run assign canc pre g sched))).
+Lemma run_cancel_nodup assign canc pre hold0 g sched : NoDup (cancelled (snd (run assign canc pre hold0 g sched))).
 Proof.
   unfold run.
-  assert (H : WF (start assign canc pre g) /\ NoDup (cancelled (snd (start assign canc pre g)))).
+  assert (H : WF (start assign canc pre hold0 g) /\ NoDup (cancelled (snd (start assign canc pre hold0 g)))).
   { split; [apply drive_WF; intros d []|]. unfold start.
-    destruct (drive_world assign canc g (mkw pre [] [] [])) as (_ & E2 & _). rewrite E2. constructor. }
-  revert H. generalize (start assign canc pre g) as p. induction sched as [|o r IH]; intros p [HW Hn]; [exact Hn|].
+    destruct (drive_world assign canc g (mkw pre [] [] [] hold0)) as (_ & E2 & _). rewrite E2. constructor. }
+  revert H. generalize (start assign canc pre hold0 g) as p. induction sched as [|o r IH]; intros p [HW Hn]; [exact Hn|].
   cbn [fold_left]. apply IH. split; [apply step_WF, HW|].
-  destruct p as [st w]. destruct HW as [W1 W2]. cbn [fst snd] in *. destruct o as [d|]; cbn [step].
+  destruct p as [st w]. destruct HW as [W1 W2]. cbn [fst snd] in *. destruct o as [d| |d]; cbn [step].
   - unfold fire. destruct (mem d (fired w)); [exact Hn|]. destruct st as [r0|d' k]; [exact Hn|].
     destruct (Nat.eqb d d'); [|exact Hn].
     match goal with |- context [drive assign canc ?g0 ?w0] => destruct (drive_world assign canc g0 w0) as (_ & E2 & _) end.
     rewrite E2. exact Hn.
-  - unfold cancel. destruct st as [r0|d k]; [exact Hn|].
+  - unfold cancel. destruct st as [r0|d k]; [exact Hn|]. destruct (mem d (held w)); [exact Hn|].
     match goal with |- context [drive assign canc ?g0 ?w0] => destruct (drive_world assign canc g0 w0) as (_ & E2 & _) end.
     rewrite E2. cbn. constructor; [|exact Hn]. intros Hin. apply W2, W1, Hin.
+  - unfold hold. destruct (mem d (fired w)); exact Hn.
 Qed.
